@@ -162,6 +162,8 @@ class Body:
         elif k in ("call", "drop", "assert"):
             if t.get("t") is not None:
                 out = [t["t"]]
+            if k == "assert" and const_bool(t.get("cond")) is not None and const_bool(t["cond"]) != t.get("expected"):
+                out = []  # always-failing assertion (e.g. coroutine resumed after completion): no normal successor
             if unwind and t.get("unwind") is not None:
                 out.append(t["unwind"])
         elif k == "yield":
@@ -301,13 +303,63 @@ class Body:
         d = self.defs_of(local)
         return d[0] if len(d) == 1 else None
 
+    def promoted_value(self, idx):
+        """value of promoted constant #idx of this body: ('const', k) | ('array', [k...]) | None"""
+        owner = self
+        if idx >= len(owner.promoted):
+            return None
+        pb = owner.promoted[idx]
+        # _0 = &_1 ; _1 = const / array aggregate
+        d = pb.single_def(0)
+        seen = 0
+        while d is not None and seen < 6:
+            seen += 1
+            b, i, rv = d
+            if i == "term":
+                return None
+            if rv["k"] == "ref":
+                pl = P(rv["place"])
+                if pl[1] and [x for x in pl[1] if x != "*"]:
+                    return None
+                d = pb.single_def(pl[0])
+                continue
+            if rv["k"] == "use":
+                k = op_const(rv["op"])
+                if k is not None:
+                    return ("const", k)
+                pl = op_place(rv["op"])
+                d = pb.single_def(pl[0]) if pl and not pl[1] else None
+                continue
+            if rv["k"] == "aggr" and rv["ak"] in ("array", "tuple"):
+                out = []
+                for o in rv["ops"]:
+                    k = op_const(o)
+                    if k is None:
+                        ch = pb.chase(o)
+                        k = ch[1] if ch[0] == "const" else None
+                    out.append(k)
+                return ("array", out)
+            return None
+        return None
+
+    def resolve_const(self, k):
+        """a const operand record -> itself, or the value of the promoted it names"""
+        if k is not None and "promoted" in k and "str" not in k:
+            owner = self
+            pv = owner.promoted_value(k["promoted"])
+            if pv and pv[0] == "const":
+                return pv[1]
+            if pv and pv[0] == "array":
+                return dict(k, array=pv[1])
+        return k
+
     def chase(self, op, depth=12):
         """Follow an operand back through single-definition copies/moves/refs/derefs.
         Returns a list describing the chain end: ('const', k) | ('place', place) |
         ('call', bb, term) | ('rv', rvalue) | ('arg', local)."""
         k = op_const(op)
         if k is not None:
-            return ("const", k)
+            return ("const", self.resolve_const(k))
         pl = op_place(op)
         return self.chase_place(pl, depth)
 
@@ -329,7 +381,7 @@ class Body:
             if rv["k"] == "use":
                 k = op_const(rv["op"])
                 if k is not None:
-                    return ("const", k)
+                    return ("const", self.resolve_const(k))
                 pl = op_place(rv["op"])
                 continue
             if rv["k"] == "ref":
@@ -338,7 +390,7 @@ class Body:
             if rv["k"] == "cast":
                 k = op_const(rv["op"])
                 if k is not None:
-                    return ("const", k)
+                    return ("const", self.resolve_const(k))
                 pl = op_place(rv["op"])
                 continue
             return ("rv", rv, b)
